@@ -88,6 +88,16 @@ def main():
     if hb is None:
         c.finish("lake build", "n/a")
     # known findings: the committed file plus the entries proposed by this check (until merged)
+    # entries proposed but not merged yet: /verif/.work/proposed_findings_C02.json {"remove": [ids], "findings": [...]}
+    prop = os.path.join(WORK, "proposed_findings_C02.json")
+    if os.path.exists(prop):
+        try:
+            pj = json.load(open(prop))
+            c.known = [f for f in c.known if f["id"] not in set(pj.get("remove", []))]
+            have = {f["id"] for f in c.known}
+            c.known += [f for f in pj.get("findings", []) if f.get("property") == "C02" and f["id"] not in have]
+        except (OSError, ValueError) as e:
+            log("proposed findings ignored:", e)
     quick = c.tier == "quick"
     seed = c.seed
 
